@@ -21,6 +21,10 @@ CONST_KINDS_R = ["pyint", "pyfloat", "npfloat64", "npint64", "arr0d", "Constant"
 POW_EXPS = [0, 1, 2, 3, 4, -1, -2, 0.5, 1.5, 2.5, -0.5]
 
 
+TINY = False  # C14: draw every name from a deliberately tiny pool so that independent models collide on names
+TINY_POOLS = {"scalars": ["x", "y", "z"], "vectors": ["x", "v"], "matrices": ["A"]}
+
+
 def _kind_ok(kind, value):
     if kind in ("pyint", "npint64", "npint32"):
         return float(value) == int(value)
@@ -31,12 +35,15 @@ def _kind_ok(kind, value):
 @st.composite
 def envs(draw, min_scalars=1, max_scalars=3, max_vectors=2, max_matrices=1, max_params=2,
          max_vec=6, max_mat=3, min_vectors=0, min_matrices=0, bounds=False):
-    ns = draw(st.integers(min_scalars, max_scalars))
-    snames = draw(st.lists(st.sampled_from(SCALAR_NAMES), min_size=ns, max_size=ns, unique=True))
-    nv = draw(st.integers(min_vectors, max_vectors))
-    vnames = draw(st.lists(st.sampled_from(VECTOR_NAMES), min_size=nv, max_size=nv, unique=True))
-    nm = draw(st.integers(min_matrices, max_matrices))
-    mnames = draw(st.lists(st.sampled_from(MATRIX_NAMES), min_size=nm, max_size=nm, unique=True))
+    spool = TINY_POOLS["scalars"] if TINY else SCALAR_NAMES
+    vpool = TINY_POOLS["vectors"] if TINY else VECTOR_NAMES
+    mpool = TINY_POOLS["matrices"] if TINY else MATRIX_NAMES
+    ns = draw(st.integers(min_scalars, min(max_scalars, len(spool))))
+    snames = draw(st.lists(st.sampled_from(spool), min_size=ns, max_size=ns, unique=True))
+    nv = draw(st.integers(min_vectors, min(max_vectors, len(vpool))))
+    vnames = draw(st.lists(st.sampled_from(vpool), min_size=nv, max_size=nv, unique=True))
+    nm = draw(st.integers(min_matrices, min(max_matrices, len(mpool))))
+    mnames = draw(st.lists(st.sampled_from(mpool), min_size=nm, max_size=nm, unique=True))
     npar = draw(st.integers(0, max_params))
     pnames = PARAM_NAMES[:npar]
 
